@@ -1,7 +1,7 @@
 (* Dispatcher: one entry point for every executable model function. *)
 From Coq Require Import List ZArith Arith Bool.
 From MsmV Require Import Lib.Result Lib.PyList Lib.Sorting Run.Wire.
-From MsmV Require Import Lib.QMat Model.Labels Model.StateTraj Model.Msm Proofs.MsmFacts.
+From MsmV Require Import Lib.QMat Model.Labels Model.StateTraj Model.Msm Proofs.MsmFacts Model.Coring Proofs.CoringFacts Proofs.CoringWrap.
 Import ListNotations.
 Local Open Scope Z_scope.
 
@@ -50,6 +50,20 @@ Definition run_msm (e : Z) (a : list Z) : option (list Z) :=
     | None => None end
   else None.
 
+Definition run_coring (e : Z) (a : list Z) : option (list Z) :=
+  if e =? 501 then
+    match dpair dnested (dpair dZ dbool) a with
+    | Some ((ts, (lag, iter)), _) =>
+        Some (eres enested (dynamical_coring ts lag iter)
+              ++ eres enested (if lag <=? 0 then Err ValueError else if lag =? 1 then Ok ts
+                               else coring_ref ts (Z.to_nat lag) iter))
+    | None => None end
+  else if e =? 502 then   (* all maximal runs >= m ? *)
+    match dpair dnested dnat a with
+    | Some ((ts, m), _) => Some (ebool (forallb (runs_geb m) ts))
+    | None => None end
+  else None.
+
 Definition run (req : list Z) : list Z :=
   match req with
   | [] => malformed
@@ -59,6 +73,9 @@ Definition run (req : list Z) : list Z :=
       | None =>
       match run_msm e a with
       | Some r => r
+      | None =>
+      match run_coring e a with
+      | Some r => r
       | None => malformed
-      end end
+      end end end
   end.
